@@ -19,6 +19,11 @@ C18 — the control loop cannot be wedged by bursts of reports or rule changes.
 namespace UpfVerif.C18
 open UpfVerif.Gen.Conc UpfVerif.ConcRules
 
+/-- the waits-for graph is built from channel operations only; it is complete as a model of blocking because the module has
+    no other blocking primitive: no mutex, read-write lock or condition variable appears in /repo's current source (the
+    `sync.WaitGroup` is waited on at shutdown only) -/
+theorem blocking_is_channels_only : otherSync = [] := by decide
+
 /-! ### the principle -/
 
 /-- `waits p = some q`: p is blocked on a queue only q drains.  A ranking makes the relation acyclic. -/
